@@ -392,7 +392,7 @@ template <typename T> struct Spec
     bool force_acc = false;
     Integrand<T> f; Map<T> map;
     bool builtin = true; int mode = 0; T target = T(); std::vector<bool> script;
-    std::string filename; bool keepfile = false; bool cbbase = false; bool cbref = false;
+    std::string filename; bool keepfile = false; bool cbbase = false; bool cbref = false; int subcomm = 0;
 };
 
 #ifdef VERIF_MPI
@@ -421,7 +421,7 @@ template <typename T, typename C, typename MkMpi> Sx run_mpi_op(Spec<T> const& s
             out[r] = run_mpi_one(mine, calls, chk);
             done[r] = 1;
             g_ctx = nullptr;
-        });
+        }, sp.subcomm);
     }
     catch (...) { std::cout.rdbuf(old); throw; }
     std::cout.rdbuf(old);
@@ -609,6 +609,7 @@ template <typename T> Sx run_case(std::string const& cmd, Sx const& a)
     if (Sx const* e = a.find("keepfile")) { sp.filename = e->at(1).S_(); sp.keepfile = true; }
     sp.cbbase = num("cbbase", 0) != 0;
     sp.cbref = num("cbref", 0) != 0;
+    sp.subcomm = static_cast<int>(num("subcomm", 0));
     Sx const& ops = a.find("ops")->at(1);
     Sx const& ck = a.find("chk")->at(1);
     bool const with_dists = !sp.dists.empty() || sp.force_acc;
@@ -630,8 +631,8 @@ template <typename T> Sx run_case(std::string const& cmd, Sx const& a)
 #ifdef VERIF_MPI
             MpiBuiltinCb<C> mb{hep::mpi_callback<C>(modes[my.mode & 3], my.filename, my.target)}; MpiScriptCb<C> ms{my.script};
             auto j1 = mk_int1<T>(my); auto j0 = mk_int0<T>(my);
-            if (with_dists) return my.builtin ? hep::mpi_plain(MPI_COMM_WORLD, j1, calls, c, mb) : hep::mpi_plain(MPI_COMM_WORLD, j1, calls, c, ms);
-            return my.builtin ? hep::mpi_plain(MPI_COMM_WORLD, j0, calls, c, mb) : hep::mpi_plain(MPI_COMM_WORLD, j0, calls, c, ms);
+            if (with_dists) return my.builtin ? hep::mpi_plain(shim_comm(), j1, calls, c, mb) : hep::mpi_plain(shim_comm(), j1, calls, c, ms);
+            return my.builtin ? hep::mpi_plain(shim_comm(), j0, calls, c, mb) : hep::mpi_plain(shim_comm(), j0, calls, c, ms);
 #else
             (void) my; (void) calls; return c;
 #endif
@@ -654,8 +655,8 @@ template <typename T> Sx run_case(std::string const& cmd, Sx const& a)
 #ifdef VERIF_MPI
             MpiBuiltinCb<C> mb{hep::mpi_callback<C>(modes[my.mode & 3], my.filename, my.target)}; MpiScriptCb<C> ms{my.script};
             auto j1 = mk_int1<T>(my); auto j0 = mk_int0<T>(my);
-            if (with_dists) return my.builtin ? hep::mpi_vegas(MPI_COMM_WORLD, j1, calls, c, mb) : hep::mpi_vegas(MPI_COMM_WORLD, j1, calls, c, ms);
-            return my.builtin ? hep::mpi_vegas(MPI_COMM_WORLD, j0, calls, c, mb) : hep::mpi_vegas(MPI_COMM_WORLD, j0, calls, c, ms);
+            if (with_dists) return my.builtin ? hep::mpi_vegas(shim_comm(), j1, calls, c, mb) : hep::mpi_vegas(shim_comm(), j1, calls, c, ms);
+            return my.builtin ? hep::mpi_vegas(shim_comm(), j0, calls, c, mb) : hep::mpi_vegas(shim_comm(), j0, calls, c, ms);
 #else
             (void) my; (void) calls; return c;
 #endif
@@ -678,8 +679,8 @@ template <typename T> Sx run_case(std::string const& cmd, Sx const& a)
 #ifdef VERIF_MPI
             MpiBuiltinCb<C> mb{hep::mpi_callback<C>(modes[my.mode & 3], my.filename, my.target)}; MpiScriptCb<C> ms{my.script};
             auto j1 = mk_mc1<T>(my); auto j0 = mk_mc0<T>(my);
-            if (with_dists) return my.builtin ? hep::mpi_multi_channel(MPI_COMM_WORLD, j1, calls, c, mb) : hep::mpi_multi_channel(MPI_COMM_WORLD, j1, calls, c, ms);
-            return my.builtin ? hep::mpi_multi_channel(MPI_COMM_WORLD, j0, calls, c, mb) : hep::mpi_multi_channel(MPI_COMM_WORLD, j0, calls, c, ms);
+            if (with_dists) return my.builtin ? hep::mpi_multi_channel(shim_comm(), j1, calls, c, mb) : hep::mpi_multi_channel(shim_comm(), j1, calls, c, ms);
+            return my.builtin ? hep::mpi_multi_channel(shim_comm(), j0, calls, c, mb) : hep::mpi_multi_channel(shim_comm(), j0, calls, c, ms);
 #else
             (void) my; (void) calls; return c;
 #endif
